@@ -27,8 +27,8 @@ func registerC03() {
 		MinNontrivial: 300,
 		Families: []lib.Family{
 			{Name: "filetypes", N: func(string) uint64 { return 256 }, Run: c03FileType},
-			{Name: "routing", N: func(t string) uint64 { return tierN(t, 17*600, 17*30000) }, Run: c03Routing},
-			{Name: "fileid-change", N: func(t string) uint64 { return tierN(t, 17*60, 17*3000) }, Run: c03FileIdChange},
+			{Name: "routing", N: func(t string) uint64 { return tierN(t, 17*3000, 17*60000) }, Run: c03Routing},
+			{Name: "fileid-change", N: func(t string) uint64 { return tierN(t, 17*400, 17*10000) }, Run: c03FileIdChange},
 		},
 	})
 }
